@@ -69,7 +69,7 @@ def gen_plan(rng: random.Random, tier: str) -> dict:
             # the far end acknowledges some of what it has seen on this direction's wire (injected packets included);
             # the acknowledgement travels the other way through the same circuit
             steps.append({"at": t, "op": "revack", "picks": [rng.randrange(12) for _ in range(rng.randint(1, 3))],
-                          "form": rng.choice(["appended", "packetack"])})
+                          "form": rng.choice(["appended", "packetack", "both", "both"])})
             continue
         resent = False
         if cur and rng.random() < p_old:
@@ -289,7 +289,16 @@ def run_plan(plan: dict) -> RunResult:
             if not ids:
                 return
             rev = Direction.IN if direction == Direction.OUT else Direction.OUT
-            if step["form"] == "packetack":
+            if step["form"] == "both" and len(ids) >= 2:
+                # a PacketAck that also carries piggy-backed acks; injected IDs are put into the blocks first
+                inj_first = sorted(ids, key=lambda w: (wire_owner.get(w, ("inj",))[0] != "inj", w))
+                k_ = max(1, len(ids) // 2)
+                msg = Message("PacketAck", *[Block("Packets", ID=w) for w in inj_first[:k_]],
+                              packet_id=9000 + len(wire.sent), direction=rev)
+                msg.acks = tuple(inj_first[k_:])
+                if all(wire_owner.get(w, ("inj",))[0] == "inj" for w in inj_first[:k_]):
+                    res.probe("packetack_blocks_all_injected_with_appended_acks")
+            elif step["form"] in ("packetack", "both"):
                 msg = Message("PacketAck", *[Block("Packets", ID=w) for w in ids], packet_id=9000 + len(wire.sent),
                               direction=rev)
             else:
